@@ -47,12 +47,7 @@ def one_case(ctx, cfg, a, read, cases):
         # what the user gets: aligner behind the k-mer prefilter
         ar = real_adapter(cfg)
         if ar is not None and ar.match_to(read) is None:
-            k = int(len(a.sequence) * a.max_error_rate)
-            if ty == "anywhere" and len(read) < len(a.sequence) + k:
-                sig = "C02/missed-by-prefilter-anywhere-read-inside-adapter"
-            else:
-                sig = "C02/occurrence-missed-by-prefilter"
-            ctx.failures.append(Failure(sig, "an admissible occurrence exists and the aligner finds a match, but the k-mer prefilter rejects the read",
+            ctx.failures.append(Failure("C02/occurrence-missed-by-prefilter", "an admissible occurrence exists and the aligner finds a match, but the k-mer prefilter rejects the read",
                                         inp, None, list(occ)))
     if mt is None:
         return
